@@ -296,9 +296,15 @@ func genC15(rng *rand.Rand, n int, thorough bool, emit func(string)) {
 				e := rng.Intn(2)
 				emit(fmt.Sprintf("WT %s %d %d %d", script, k, j, e))
 				emitted++
+				if emitted%4 == 0 {
+					emit(fmt.Sprintf("GWT %s %d %d %d", script, k, j, e)) // the same through the encoders as translated (Gen/Write.lean)
+				}
 			}
 			emit(fmt.Sprintf("WT %s - 0 0", script))
 			emitted++
+			if emitted%3 == 0 {
+				emit(fmt.Sprintf("GWT %s - 0 0", script))
+			}
 		}
 	}
 }
